@@ -17,9 +17,9 @@ class Check(PropertyCheck):
                    "known finding KF-ceil-window: inputs in the Coq class kf_c01 are exempted and counted"]
 
     def families(self, rng, tier):
-        return [("formulas.compute_swap", fam_swap.swap_cases(rng, tier)),
-                ("world.general", fam_world.general_histories(rng, tier, n_hist={"quick": 5, "thorough": 50}[tier])),
-                ("world.lookalike", fam_world.lookalike_histories(rng, tier))]
+        return [("formulas.compute_swap", fam_swap.swap_cases(rng.sub("swap_cases"), tier)),
+                ("world.general", fam_world.general_histories(rng.sub("general_histories"), tier, n_hist={"quick": 5, "thorough": 50}[tier])),
+                ("world.lookalike", fam_world.lookalike_histories(rng.sub("lookalike_histories"), tier))]
 
     def witnesses(self):
         w = fam_swap.WITNESSES
